@@ -27,5 +27,6 @@ P3 == Full => BrokenNeverOk(c.p, c.e)
 P4 == Full => NoAnchorIsNA(c.p, c.e)
 (* completeness in the other direction for the single-anchor policies: a bound, internally consistent signature is OK unless a configured anchor contradicts it *)
 P5 == Full => ((c.e.internal = "ok" /\ Bound(c.p, c.e) /\ ~Contradiction(c.p, c.e)) => Verdict(c.p, c.e).res = "OK")
-Emit == Full => PrintT("CASE " \o ToJson([p |-> c.p, e |-> c.e, v |-> Verdict(c.p, c.e)]))
+P6 == Full => FailCodeAdmitted(c.p, c.e)
+Emit == Full => PrintT("CASE " \o ToJson([p |-> c.p, e |-> c.e, v |-> Verdict(c.p, c.e), codes |-> AdmittedFailCodes(c.p, c.e)]))
 =============================================================================
